@@ -571,6 +571,13 @@ func c15Attachment(r *base.Run) {
 		{"field-trailing-comment", func(a string) string { return "// @immutable\ntype X struct {\n\tf int " + a + "\n}\n" }, "X.f", nil},
 		{"type-trailing-comment", func(a string) string { return "type X struct{ f int } " + a + "\n" }, "X", nil},
 		{"local-type-doc", func(a string) string { return "func g() {\n\t" + a + "\n\ttype X struct{ f int }\n\tvar _ X\n}\n" }, "X", nil},
+		{"local-type-doc-in-pkglevel-closure", func(a string) string {
+			return "var table = map[string]func(){\n\t\"k\": func() {\n\t\t" + a + "\n\t\ttype X struct{ f int }\n\t\tvar _ X\n\t},\n}\n"
+		}, "X", nil},
+		{"local-type-doc-in-var-initialiser", func(a string) string { return "var run = func() int {\n\t" + a + "\n\ttype X struct{ f int }\n\treturn len([]X{})\n}()\n" }, "X", nil},
+		{"local-type-doc-in-method-body", func(a string) string { return "type R struct{}\n\nfunc (r R) m() {\n\tfunc() {\n\t\t" + a + "\n\t\ttype X struct{ f int }\n\t\tvar _ X\n\t}()\n}\n" }, "X", nil},
+		{"local-func-literal-doc", func(a string) string { return "func g() {\n\t" + a + "\n\tX := func() {}\n\tX()\n}\n" }, "X", nil},
+		{"interface-method-doc", func(a string) string { return "type I interface {\n\t" + a + "\n\tX()\n}\n" }, "X", nil},
 		{"var-doc", func(a string) string { return a + "\nvar X int\n" }, "X", nil},
 		{"const-doc", func(a string) string { return a + "\nconst X = 1\n" }, "X", nil},
 		{"detached-by-blank-line", func(a string) string { return a + "\n\ntype X struct{ f int }\n" }, "X", nil},
